@@ -65,6 +65,7 @@ var (
 	curKeep  string
 	curCmpl  string
 	curOp    string // seg | flush | flushall
+	curT     int    // cut-off T of the flush being executed
 	optPer   int
 	optTotal int
 
@@ -74,6 +75,7 @@ var (
 	segsFed      int  // segments fed in this case
 	optsLate     bool // limits were changed after segments had been fed: the bound is not monitored
 	multiPage    bool // a packet larger than one page was fed
+	pendingFed   bool // the oracle has not been told about the current segment yet
 )
 
 type factory struct{}
@@ -85,16 +87,28 @@ func (factory) New(netFlow, tcpFlow gopacket.Flow, tcp *layers.TCP, ac reassembl
 	lib.Stat("stream-new")
 	firstDir[s.sid] = curSeg.dir
 	// a new connection object: whatever an earlier incarnation of this flow saw does not count
+	// (`used` still describes the operations BEFORE this one: the current segment is fed below)
 	for d := 0; d < 2; d++ {
 		if o := oracles[[2]int{s.conn, d}]; o != nil && o.used {
 			oracles[[2]int{s.conn, d}] = &oracle{S: o.S, isn: o.isn, covered: make([]bool, len(o.S)), reopen: true}
+			lib.Stat("stream-reopened")
 		}
 	}
-	monSegFed(curSeg.conn, curSeg.dir, curSeg.seq, curSeg.flags, curSeg.acc, curSeg.pay)
+	feedPending()
 	return s
 }
 
+// feedPending tells the oracle about the segment being processed — once, and before any callback that
+// delivers data: from New (new connection), else from Accept, else after the operation.
+func feedPending() {
+	if pendingFed {
+		pendingFed = false
+		monSegFed(curSeg.conn, curSeg.dir, curSeg.seq, curSeg.flags, curSeg.acc, curSeg.pay, curSeg.ts)
+	}
+}
+
 func (s *stream) Accept(tcp *layers.TCP, ci gopacket.CaptureInfo, dir reassembly.TCPFlowDirection, nextSeq reassembly.Sequence, start *bool, ac reassembly.AssemblerContext) bool {
+	feedPending()
 	if s.completed > 0 {
 		lib.Stat("accept-after-complete")
 	}
@@ -193,6 +207,17 @@ type oracle struct {
 	// classification tags for signatures
 	synRetxData bool
 	finQueued   bool
+	// bookkeeping for the queue guard and the age-flush monitors: accepted segments with payload, as fed
+	fed     []fedSeg
+	overlap bool // a fed segment overlapped an undelivered one: the bookkeeping below is not exact any more
+}
+
+// fedSeg: payload [off, off+n) of the sender stream, seen at integer time ts.
+type fedSeg struct{ off, n, ts int }
+
+// exact: the oracle knows exactly which fed segments are still queued (those with off >= pos).
+func (o *oracle) exact() bool {
+	return !o.bad && !o.unsynced && !o.reopen && !o.overlap && !o.ended
 }
 
 func oracleFor(conn int, dir int) *oracle {
@@ -207,6 +232,7 @@ type segRec struct {
 	flags     string
 	acc       int
 	pay       []byte
+	ts        int
 }
 
 var curSeg segRec
@@ -296,6 +322,19 @@ func monSG(s *stream, dir bool, skip int, start, end bool, saved, nw []byte, kee
 		lib.Finding("C09", "reasm:sg:content"+tag, fmt.Sprintf("conn %d dir %d: new bytes at stream offset %d (after skip %d) are %s, sender stream has %s", s.conn, sent, o.pos, skip, lib.Hex(trunc(nw)), lib.Hex(trunc(want))))
 		return
 	}
+	if curOp == "flush" && len(nw) > 0 && !o.overlap && !o.reopen {
+		// age clause 2: the first new byte of a ScatterGather released by an age flush was seen before T
+		for _, f := range o.fed {
+			if f.off <= o.pos && o.pos < f.off+f.n {
+				if f.ts >= curT {
+					lib.Finding("C11", "reasm:age-flush:new-data-released", fmt.Sprintf("conn %d dir %d: FlushWithOptions{T=%d} released bytes at offset %d seen at t=%d, not behind older data", s.conn, sent, curT, o.pos, f.ts))
+				} else {
+					lib.Stat("age-flush-old-group")
+				}
+				break
+			}
+		}
+	}
 	o.pos += len(nw)
 	if len(nw) > 0 {
 		lib.Stat("sg-data-ok")
@@ -317,7 +356,7 @@ func imin(a, b int) int {
 }
 
 // monSegFed notes what the sender put on the wire (for coverage / completeness).
-func monSegFed(conn, dir int, seq uint32, flags string, acc int, payload []byte) {
+func monSegFed(conn, dir int, seq uint32, flags string, acc int, payload []byte, tsn int) {
 	o := oracleFor(conn, dir)
 	if o == nil {
 		return
@@ -350,6 +389,67 @@ func monSegFed(conn, dir int, seq uint32, flags string, acc int, payload []byte)
 	for i := range payload {
 		if off+i >= 0 && off+i < len(o.covered) {
 			o.covered[off+i] = true
+		}
+	}
+	if len(payload) > 0 {
+		lo, hi := off, off+len(payload)
+		for _, f := range o.fed {
+			if f.off+f.n > o.pos && lo < f.off+f.n && f.off < hi {
+				o.overlap = true
+			}
+		}
+		if lo < 0 || hi > len(o.S) {
+			o.overlap = true
+		}
+		o.fed = append(o.fed, fedSeg{lo, len(payload), tsn})
+	}
+}
+
+// monQueueGuard (C09): a segment that was accepted beyond a gap and has not been handed over must be in the
+// queue of its half connection.  If the exact oracles know of such segments and the pool queues NOTHING, the
+// segment can never be delivered (e.g. a page linked behind a stale half.last): reported at once, and the case
+// is abandoned before the corrupted lists can make a later operation spin.
+func monQueueGuard() {
+	if closingFlush || dead {
+		return
+	}
+	want, where := 0, ""
+	for k, o := range oracles {
+		if !o.exact() {
+			continue
+		}
+		for _, f := range o.fed {
+			if f.off >= o.pos && (f.off > o.pos || !o.started) {
+				want++
+				where = fmt.Sprintf("conn %d dir %d: bytes [%d,%d) accepted at t=%d, %d delivered", k[0], k[1], f.off, f.off+f.n, f.ts, o.pos)
+			}
+		}
+	}
+	if want == 0 {
+		return
+	}
+	lib.Stat("queue-guard-checked")
+	if q, _, _ := pool.VerifPages(); q == 0 {
+		dead = true
+		lib.Finding("C09", "reasm:queue:lost-segment", fmt.Sprintf("%d accepted out-of-order segment(s) are in no queue and can never be delivered (%s)", want, where))
+	}
+}
+
+// monAfterFlush (C11, age clause 1): after FlushWithOptions{T} (no close cut-off) no connection may still wait
+// on queued data seen before T.
+func monAfterFlush(T int) {
+	if closingFlush || dead {
+		return
+	}
+	for k, o := range oracles {
+		if !o.exact() {
+			continue
+		}
+		for _, f := range o.fed {
+			if f.off >= o.pos && (f.off > o.pos || !o.started) && f.ts < T {
+				lib.Finding("C11", "reasm:age-flush:old-data-left", fmt.Sprintf("conn %d dir %d: after FlushWithOptions{T=%d} bytes [%d,%d) seen at t=%d are still queued (%d delivered)", k[0], k[1], T, f.off, f.off+f.n, f.ts, o.pos))
+				break
+			}
 		}
 	}
 }
@@ -632,11 +732,15 @@ func exec(a []string) string {
 		if len(pay) > pageBytes {
 			multiPage = true
 		}
-		curSeg = segRec{c, d, uint32(seq), flags, acc, pay}
-		monSegFed(c, d, uint32(seq), flags, acc, pay)
+		curSeg = segRec{c, d, uint32(seq), flags, acc, pay, tsn}
+		pendingFed = true
 		r := guarded(func() {
 			asm.AssembleWithContext(nf, tcp, &actx{gopacket.CaptureInfo{Timestamp: ts(tsn)}})
 		})
+		if r == "" {
+			feedPending()
+		}
+		pendingFed = false
 		lib.Stat("seg")
 		if len(pay) > pageBytes {
 			lib.Stat("seg-multipage")
@@ -647,6 +751,7 @@ func exec(a []string) string {
 			return r
 		}
 		monLimit(len(pay))
+		monQueueGuard()
 		return "ok " + status() + renderEvents(false)
 	case "flush":
 		if len(a) != 6 {
@@ -657,7 +762,7 @@ func exec(a []string) string {
 		if !ok1 || !ok2 || t < 0 || tc < 0 || t > 1<<30 || tc > 1<<30 || !okKeep(a[4]) || !okCmpl(a[5]) {
 			return "bad-op"
 		}
-		curAcc, curKeep, curCmpl, curOp = 1, a[4], a[5], "flush"
+		curAcc, curKeep, curCmpl, curOp, curT = 1, a[4], a[5], "flush", t
 		if tc > 0 {
 			closingFlush = true
 		}
@@ -672,6 +777,8 @@ func exec(a []string) string {
 			lib.Finding("*", "reasm:"+strings.ReplaceAll(r, " ", ":")+":"+panicSite, "FlushWithOptions panicked: "+panicMsg)
 			return r
 		}
+		monAfterFlush(t)
+		monQueueGuard()
 		return fmt.Sprintf("ok f=%d c=%d %s", fl, cl, status()) + renderEvents(true)
 	case "flushall":
 		if len(a) != 4 || !okKeep(a[2]) || !okCmpl(a[3]) {
